@@ -275,16 +275,22 @@ def judge_text(fmt, text, label, fail, stats, scratch, judged=True, call=None, d
             k = "%s:text-refused-by-the-decoder-itself" % fmt.lower()
             stats["hist"][k] = stats["hist"].get(k, 0) + 1
             return
-    for how in ("from_string", "from_file"):
+    # reader options: with show_warnings (the default of ODMLReader and odml.load) the reader validates what it has read
+    # and reports the issues - that step belongs to the call and must not leak anything either
+    import warnings as _warnings
+    for how in ("from_string", "from_file", "from_string:show_warnings", "from_file:show_warnings"):
         entry = "ODMLReader(%s).%s" % (fmt, how)
+        quiet = not how.endswith(":show_warnings")
         try:
-            if how == "from_string":
-                doc = run(lambda: ODMLReader(fmt, show_warnings=False).from_string(text))
-            else:
-                path = os.path.join(scratch, "in." + fmt.lower())
-                with open(path, "w", encoding="utf-8") as fh:
-                    fh.write(text)
-                doc = run(lambda: ODMLReader(fmt, show_warnings=False).from_file(path))
+            with _warnings.catch_warnings():
+                _warnings.simplefilter("ignore")
+                if how.startswith("from_string"):
+                    doc = run(lambda: ODMLReader(fmt, show_warnings=not quiet).from_string(text))
+                else:
+                    path = os.path.join(scratch, "in." + fmt.lower())
+                    with open(path, "w", encoding="utf-8") as fh:
+                        fh.write(text)
+                    doc = run(lambda: ODMLReader(fmt, show_warnings=not quiet).from_file(path))
             stats["execs"] += 1
             if isinstance(doc, BaseDocument):
                 objs = tree.closure([doc])
@@ -574,7 +580,8 @@ def seed_dict():
         "sections": [{"id": VID % 32, "name": "s1", "type": "t", "sec_cardinality": [1, 2],
                       "properties": [{"id": VID % 33, "name": "p1", "value": [1, 2], "type": "int", "unit": "mV",
                                       "val_cardinality": [1, 3]},
-                                     {"id": VID % 34, "name": "p2", "value": ["x"]}],
+                                     {"id": VID % 34, "name": "p2", "value": ["x"], "dependency": "p1",
+                                      "dependency_value": "1"}],
                       "sections": [{"id": VID % 35, "name": "s11", "type": "t", "properties": [], "sections": []}]},
                      {"id": VID % 36, "name": "s2", "type": "u"}]}}
 
@@ -583,7 +590,7 @@ DICT_VALUES = ["", "x", 5, None, [], [1, "x"], {"k": 1}, True, "not-an-id", "202
 
 
 PLAIN_ATTRS = ("author", "date", "version", "type", "unit", "definition", "reference", "sec_cardinality", "val_cardinality",
-               "prop_cardinality", "uncertainty", "value_origin")
+               "prop_cardinality", "uncertainty", "value_origin", "dependency", "dependency_value")
 
 
 def dict_mutations():
